@@ -196,7 +196,7 @@ func (x *schedExec) drive(prefix []int, maxPoints int, atPoint func() *pt.Violat
 				}
 			}
 			if !envBefore {
-				return viol("C12:requests-wait-for-each-other", "every unfinished request waits for a lock and nothing else can run: the requests block each other until a lock lease runs out: %s; trace: %v", x.status(), x.trace)
+				return viol("hang:activities-wait-for-each-other", "every unfinished activity waits for a lock and nothing else can run: they block each other (only a lock lease running out could end it): %s; trace: %v", x.status(), x.trace)
 			}
 			idle++
 			if idle > 4 {
